@@ -10,7 +10,7 @@ LEVEL = "other"
 LEVEL_TEXT = (
     "Static path and structure rules that are necessary conditions of reply ownership: close-before-escape on every "
     "ordinary-exception exit after sendall (R1), noreply <=> no read, coupled with the wire token at every call site "
-    "(R2), one reply read per command sent, in order (R3), no receive state survives a call (R4), only Client talks to "
+    "(R2), each public method interpreted end to end consumes exactly the reply the protocol defines for its own commands (R3), no receive state survives a call (R4), only Client talks to "
     "sockets (R5). Parsing correctness under every segmentation is C03; misbehaving servers are not decided."
 )
 TRUSTED = ["CPython ast", "pmcsa/paths.py interpreter", "pmcsa/wire.py fragment evaluator (R2b)", "summary: Client.close does not raise (decided by C06.R6)"]
